@@ -157,13 +157,13 @@ theorem lexSeq_float (cfg : Cfg) (hconv : ∀ c, cfg.conv c = c) (g : GText) (hg
     variables are distinct variable tokens (`_` followed by at least one alphanumeric), and
     `FormatFloat` returns a text of its grammar that `float()` reads back to the same bits (the
     library law `ParseFloat ∘ FormatFloat(-1) = id`) -/
-structure EnvOK (e : Env) (G : UInt64 → GText) : Prop where
+structure EnvOK (e : Env) (G : UInt64 → GText) (P : UInt64 → Bool) : Prop where
   conv : ∀ c, e.cfg.conv c = c
   varShape : ∀ v, VarName e.cfg (e.varName v) ∧ 2 ≤ (e.varName v).length
   varInj : ∀ v w, e.varName v = e.varName w → v = w
-  fltWF : ∀ b, (G b).WF
-  fltText : ∀ b, e.fmtFloat b = (G b).render
-  fltLaw : ∀ b, Read.float (G b).neg (G b).body = b
+  fltWF : ∀ b, P b = true → (G b).WF
+  fltText : ∀ b, P b = true → e.fmtFloat b = (G b).render
+  fltLaw : ∀ b, P b = true → Read.float (G b).neg (G b).body = b
 
 mutual
   /-- the tokens of write_canonical text -/
@@ -182,14 +182,16 @@ mutual
 end
 
 mutual
-  /-- all integers in the term are 64-bit -/
-  def int64Term : Term → Bool
+  /-- all integers in the term are 64-bit and all floats are among those (`P`) the float parameters
+      of the writer model are known for -/
+  def numsOK (P : UInt64 → Bool) : Term → Bool
     | .int i => decide (-9223372036854775808 ≤ i ∧ i ≤ 9223372036854775807)
-    | .app _ as => int64Args as
+    | .flt b => P b
+    | .app _ as => numsOKArgs P as
     | _ => true
-  def int64Args : Args → Bool
+  def numsOKArgs (P : UInt64 → Bool) : Args → Bool
     | .nil => true
-    | .cons t ts => int64Term t && int64Args ts
+    | .cons t ts => numsOK P t && numsOKArgs P ts
 end
 
 theorem headIs_tailText (e : Env) (rest : Args) (tail : List Char) : HeadIs Delim (tailText e rest ++ ')' :: tail) := by
@@ -198,8 +200,8 @@ theorem headIs_tailText (e : Env) (rest : Args) (tail : List Char) : HeadIs Deli
   | cons a r => simp [tailText]; exact HeadIs.cons (.inr (.inr (.inr rfl)))
 
 mutual
-  theorem lexSeq_term (e : Env) (G : UInt64 → GText) (he : EnvOK e G) : (t : Term) → (tail : List Char) →
-      wfTerm t = true → int64Term t = true → HeadIs Delim tail →
+  theorem lexSeq_term (e : Env) (G : UInt64 → GText) (P : UInt64 → Bool) (he : EnvOK e G P) : (t : Term) → (tail : List Char) →
+      wfTerm t = true → numsOK P t = true → HeadIs Delim tail →
       LexSeq e.cfg (canonText e t) (ctoks e G t) tail
     | .var v, tail, _, _, ht => by
       simp only [canonText, ctoks]
@@ -210,23 +212,24 @@ mutual
       exact (atomTokens_spec e.cfg he.conv a.toList tail ht).2
     | .int i, tail, _, hi, ht => by
       simp only [canonText, ctoks]
-      simp only [int64Term, decide_eq_true_eq] at hi
+      simp only [numsOK, decide_eq_true_eq] at hi
       exact lexSeq_int e.cfg he.conv i hi.1 hi.2 tail ht
-    | .flt b, tail, _, _, ht => by
-      simp only [canonText, ctoks, he.fltText b]
-      exact lexSeq_float e.cfg he.conv (G b) (he.fltWF b) tail ht
+    | .flt b, tail, _, hi, ht => by
+      simp only [numsOK] at hi
+      simp only [canonText, ctoks, he.fltText b hi]
+      exact lexSeq_float e.cfg he.conv (G b) (he.fltWF b hi) tail ht
     | .str _, _, hw, _, _ => by simp [wfTerm] at hw
     | .app f .nil, _, hw, _, _ => by simp [wfTerm] at hw
     | .app f (.cons a rest), tail, hw, hi, ht => by
       simp only [wfTerm, Bool.and_eq_true] at hw
-      simp only [int64Term, int64Args, Bool.and_eq_true] at hi
+      simp only [numsOK, numsOKArgs, Bool.and_eq_true] at hi
       simp only [canonText, ctoks, canonArgs_cons]
       have h1 := (atomTokens_spec e.cfg he.conv f.toList ('(' :: (canonText e a ++ tailText e rest ++ ')' :: tail))
         (HeadIs.cons (.inr (.inl rfl)))).2
       have h2 : LexSeq e.cfg ['('] [⟨.openCT, ['(']⟩] (canonText e a ++ tailText e rest ++ ')' :: tail) :=
         LexSeq.single _ (lexTok_openCT e.cfg he.conv _)
-      have h3 := lexSeq_term e G he a (tailText e rest ++ ')' :: tail) hw.1 hi.1 (headIs_tailText e rest tail)
-      have h4 := lexSeq_tail e G he rest (')' :: tail) hw.2 hi.2 (HeadIs.cons (.inr (.inr (.inl rfl))))
+      have h3 := lexSeq_term e G P he a (tailText e rest ++ ')' :: tail) hw.1 hi.1 (headIs_tailText e rest tail)
+      have h4 := lexSeq_tail e G P he rest (')' :: tail) hw.2 hi.2 (HeadIs.cons (.inr (.inr (.inl rfl))))
       have h5 : LexSeq e.cfg [')'] [⟨.close, [')']⟩] tail :=
         LexSeq.single _ (lexTok_solo e.cfg he.conv ')' tail (by simp))
       have s4 : LexSeq e.cfg (tailText e rest ++ [')']) (tailToks e G rest ++ [⟨.close, [')']⟩]) tail :=
@@ -240,13 +243,13 @@ mutual
       have s1 := LexSeq.append e.cfg (y := ['('] ++ (canonText e a ++ (tailText e rest ++ [')'])))
         (by simpa [List.append_assoc] using h1) s2
       simpa [List.append_assoc] using s1
-  theorem lexSeq_tail (e : Env) (G : UInt64 → GText) (he : EnvOK e G) : (as : Args) → (tail : List Char) →
-      wfArgs as = true → int64Args as = true → HeadIs Delim tail →
+  theorem lexSeq_tail (e : Env) (G : UInt64 → GText) (P : UInt64 → Bool) (he : EnvOK e G P) : (as : Args) → (tail : List Char) →
+      wfArgs as = true → numsOKArgs P as = true → HeadIs Delim tail →
       LexSeq e.cfg (tailText e as) (tailToks e G as) tail
     | .nil, tail, _, _, _ => by simp only [tailText, tailToks]; exact .nil tail
     | .cons a rest, tail, hw, hi, ht => by
       simp only [wfArgs, Bool.and_eq_true] at hw
-      simp only [int64Args, Bool.and_eq_true] at hi
+      simp only [numsOKArgs, Bool.and_eq_true] at hi
       simp only [tailText, tailToks]
       have hd : HeadIs Delim (tailText e rest ++ tail) := by
         cases rest with
@@ -254,8 +257,8 @@ mutual
         | cons b r => simp [tailText]; exact HeadIs.cons (.inr (.inr (.inr rfl)))
       have h1 : LexSeq e.cfg [','] [⟨.comma, [',']⟩] (canonText e a ++ tailText e rest ++ tail) :=
         LexSeq.single _ (lexTok_solo e.cfg he.conv ',' _ (by simp))
-      have h2 := lexSeq_term e G he a (tailText e rest ++ tail) hw.1 hi.1 hd
-      have h3 := lexSeq_tail e G he rest tail hw.2 hi.2 ht
+      have h2 := lexSeq_term e G P he a (tailText e rest ++ tail) hw.1 hi.1 hd
+      have h3 := lexSeq_tail e G P he rest tail hw.2 hi.2 ht
       have s2 : LexSeq e.cfg (canonText e a ++ tailText e rest) (ctoks e G a ++ tailToks e G rest) tail :=
         LexSeq.append e.cfg (y := tailText e rest) h2 h3
       have s1 := LexSeq.append e.cfg (y := canonText e a ++ tailText e rest)
